@@ -103,7 +103,8 @@ def main():
         dest = os.path.join(VERIF, "seeded", args.name)
         os.makedirs(dest, exist_ok=True)
         for name in ("patch.diff", "demo.py"):
-            shutil.copy(os.path.join(seed, name), os.path.join(dest, name))
+            if os.path.abspath(seed) != os.path.abspath(dest):
+                shutil.copy(os.path.join(seed, name), os.path.join(dest, name))
         meta["confirmed"] = {k: v for k, v in report.items() if k != "checks"}
         meta["checks_run"] = results
         meta["what_was_run"] = (f"tools/seedtest.py: demo on clean scratch worktree (exit {report.get('demo_clean_exit')}), demo with patch "
